@@ -116,6 +116,12 @@ var linModel = porcupine.Model{
 					// it would have to write: it fails, and the state stays what it was
 					return r.Class != model.OK && r.Class != model.Denied && r.Class != model.NotFound, m
 				}
+				if c == model.OK && r.Class == model.Other {
+					// it changes nothing (the version is active already, the bytes are the latest ones,
+					// the secret is not there): an implementation may persist such a call all the same,
+					// and then it fails like any other write - without effect
+					return true, m
+				}
 			}
 		}
 		switch o.Kind {
